@@ -36,7 +36,7 @@ Proof. intros L a r b. exact (rl_parse_app L a r b). Qed.
 
 (* non-vacuity: "Ho@" at the end of one read, "st: a" in the next: the historical accepted input *)
 Example C02_example_error_on_last_byte :
-  let cfg := mk_rcfg (mk_limits 8190 8 100 65534 1024 8 65534 65534 false) 1048576 1048576 true true in
+  let cfg := mk_rcfg (mk_limits 8190 8 100 65534 1024 8 65534 65534 false) 1048576 1048576 true true false in
   let a := [71;69;84;32;47;32;72;84;84;80;47;49;46;49;13;10;72;111;64] in
   snd (receive cfg (rv_init cfg) a) = RX_INVALID.
 Proof. vm_compute. reflexivity. Qed.
